@@ -1026,6 +1026,13 @@ def m_abs(x):
 
 
 def m_pow(a, b, m=None):
+    if is_sym(a) and isinstance(b, int) and isinstance(m, int) and m > 0 and b >= 0:
+        # pow(x, e, m) with a symbolic base: an uninterpreted function of x with its range (the value itself is
+        # nonlinear); congruent for equal arguments, otherwise any residue - an over-approximation
+        f = z3.Function("POWMOD|%d|%d" % (b, m), z3.IntSort(), z3.IntSort())
+        t = f(toint(a))
+        cur().fact(z3.And(t >= 0, t < m))
+        return SInt(t)
     if is_sym(a) or is_sym(b) or is_sym(m):
         raise Undecided("pow on symbolic ints")
     return _b.pow(a, b) if m is None else _b.pow(a, b, m)
